@@ -422,7 +422,7 @@ def _run_job(arg):
             resume = [tok[0] + 1, 0, 0]      # the module cannot even be loaded: skip the unit
             continue
         cls, _, summary = classify_report(err, rc if isinstance(rc, int) else None, job['units'][tok[0]]['name'])
-        sig = (tok[0], tok[1], cls, re.sub(r'-?\d+', 'N', summary))
+        sig = (tok[0], tok[1], cls, re.sub(r'-?\d+', 'N', re.sub(r'0x[0-9a-fA-F]+', 'X', summary)))
         seen[sig] += 1
         if seen[sig] >= REPEAT_CAP:
             # the same report from the same function for the third time: one root cause, skip the function's remaining inputs
